@@ -32,3 +32,18 @@ Example C04_example :
   match run_ops (st0 3 false) [OAppend 0%N 0; OAppend 1%N 1; OAppend 2%N 2; OAttach 1%N 0%N true; OAttach 2%N 1%N true; OAttach 0%N 2%N false] with
   | Ok st => match aget (st_attr st) 2%N with Some a => a_par a = Some 1%N | None => False end | Err _ => False end.
 Proof. vm_compute. reflexivity. Qed.
+
+(* REFUTED for the copying operations (the recorded findings c04:ghost-...): "every child of a slot of the stream is itself in the
+   stream" does not survive TEMP_COPY + DELETE — the rule's garbage collection frees the temp copy and leaves the deleted original in
+   its parent's child chain.  The witness is the operation history of the recorded finding (a slot attached, temp-copied, deleted;
+   the copy freed), replayed on the engine from corpus/vmslot.txt; the model reproduces it. *)
+Definition children_in_stream (st : sstate) : Prop :=
+  forall p a k, In p (st_stream st) -> aget (st_attr st) p = Some a -> In k (a_kids a) -> In k (st_stream st).
+Theorem C04_children_in_stream_refuted : exists n rtl ops st, run_ops (st0 n rtl) ops = Ok st /\ ~ children_in_stream st.
+Proof.
+  exists 3, false, [OAppend 0%N 0; OAppend 1%N 1; OAppend 2%N 2; OAttach 1%N 0%N true; OTempCopy 3%N 1%N; ODelete 1%N; OFree 3%N].
+  eexists. split; [vm_compute; reflexivity|].
+  intros H. specialize (H 0%N _ 1%N (or_introl eq_refl) eq_refl (or_introl eq_refl)).
+  vm_compute in H. destruct H as [H|[H|H]]; try discriminate; contradiction.
+Qed.
+Print Assumptions C04_children_in_stream_refuted.
